@@ -698,7 +698,7 @@ verif_comment_text
         lemma_first_char_ascii(t3);
         assert(bc.subrange(open_idx as int, bc.len() as int)[0] == bc[open_idx as int]);
         assert(bc[open_idx as int] == open_char as u8);
-        assert(close_char as u8 == md_close_byte(bc[open_idx as int]));
+        assert(close_char as u8 == md_close_byte(bc[open_idx as int])); // [N6.proof.close_char_matches_open_char]
         assert(bc[open_idx as int] == 0x28u8 || bc[open_idx as int] == 0x22u8 || bc[open_idx as int] == 0x27u8);
     }
 //@edit rule=ghost before=<<let mut result>>
@@ -712,12 +712,12 @@ verif_comment_text
     proof {
         assert(utf8(" "@).len() == 1);
         assert(utf8(" "@).len() * verif_n == verif_n) by (nonlinear_arith) requires utf8(" "@).len() == 1;
-        assert(verif_r0 =~= bc.subrange(0, prefix_idx as int) + sp(5));
+        assert(verif_r0 =~= bc.subrange(0, prefix_idx as int) + sp(5)); // [N6.proof.prefix_blanked_by_five_spaces]
     }
-//@edit rule=ghost before=<<result.push_str(&comment[open_idx + 1..>>
+//@edit rule=ghost before=<<result.push_str(&comment[open_idx>>
     let ghost verif_fill = utf8(result@).subrange(prefix_idx + 5, utf8(result@).len() as int);
     proof {
-        assert(utf8(result@).len() == verif_r0.len() + verif_n);
+        assert(utf8(result@).len() == verif_r0.len() + verif_n); // [N6.proof.filler_covers_prefix_rest_and_open_delimiter]
         assert(verif_fill.len() == verif_n);
         assert forall|k: int| 0 <= k < verif_fill.len() implies #[trigger] verif_fill[k] == 0x20u8 by {
             assert(k % 1 == 0);
